@@ -66,89 +66,115 @@ def activeFees (s : State) : Nat := (s.activeI.map (feeOf s)).sum
 
 def earnedSum (s : State) : Nat := Map.total (fun n : Nat => n) s.earned
 
-/-! ### invariants -/
+/-! ### invariants
 
-/-- static facts and address hygiene -/
-structure InvBasic (s : State) : Prop where
-  ed : s.cfg.escrow ≠ s.cfg.deposit
-  ec : s.cfg.escrow ≠ s.cfg.collector
-  dc : s.cfg.deposit ≠ s.cfg.collector
-  mult_pos : 1 ≤ s.params.mult
-  maxT_pos : 1 ≤ s.params.maxTimeout
-  tax_lt : s.params.tax < decUnit
-  slash_le : s.params.slash ≤ decUnit
-  ctxCons : ∀ c x, Map.get s.ctxs c = some x → ¬ s.modAcct x.cons
-  bindOwner : ∀ k b, Map.get s.bindings k = some b → ¬ s.modAcct b.owner
+Each invariant is a structure over exactly the state components it mentions, wrapped by
+an `abbrev` over `State`: an operation that does not touch those components preserves the
+invariant by definitional unfolding (`exact h`).
+-/
 
-/-- C03: the deposit account holds exactly the recorded deposits -/
-def InvDeposit (s : State) : Prop := s.bal s.cfg.deposit = depositSum s
+/-- configuration facts (E5): distinct module accounts, legal parameters -/
+structure Static (cfg : Config) (p : Params) : Prop where
+  ed : cfg.escrow ≠ cfg.deposit
+  ec : cfg.escrow ≠ cfg.collector
+  dc : cfg.deposit ≠ cfg.collector
+  mult_pos : 1 ≤ p.mult
+  maxT_pos : 1 ≤ p.maxTimeout
+  tax_lt : p.tax < decUnit
+  slash_le : p.slash ≤ decUnit
 
-end SM
+abbrev InvStatic (s : State) : Prop := Static s.cfg s.params
 
-namespace SM
+def isModAcct (cfg : Config) (a : Addr) : Prop := a = cfg.escrow ∨ a = cfg.deposit ∨ a = cfg.collector
 
-/-- contexts stored are well-formed: positive timeout, and a repeated context's frequency is
-    not below its timeout (so a next batch never starts before the previous one expired) -/
-def InvCtxWF (s : State) : Prop :=
-  ∀ c x, Map.get s.ctxs c = some x → 1 ≤ x.timeout ∧ (x.rep = true → x.timeout ≤ (x.freq : Int))
+/-- the bindings world (C03 backing, C14, C15): deposits, owners, indexes, price terms -/
+structure BInv (cfg : Config) (params : Params) (depBal : Nat) (defs : Map SvcName Definition)
+    (bindings : Map (SvcName × Addr) Binding) (ownerBind : FSet (Addr × SvcName × Addr))
+    (owner : Map Addr Addr) (ownerProv : FSet (Addr × Addr)) (pricing : Map (SvcName × Addr) Pricing) : Prop where
+  /-- C03: the deposit account holds exactly the recorded deposits -/
+  backed : depBal = Map.total (fun b : Binding => b.deposit) bindings
+  ownerOk : ∀ k b, Map.get bindings k = some b → ¬ isModAcct cfg b.owner
+  /-- C15: one owner per provider, shared by all its bindings -/
+  ownerOf : ∀ svc p b, Map.get bindings (svc, p) = some b → Map.get owner p = some b.owner
+  provIdx : ∀ o p, (o, p) ∈ ownerProv ↔ Map.get owner p = some o
+  bindIdx : ∀ o svc p, (o, svc, p) ∈ ownerBind ↔ ∃ b, Map.get bindings (svc, p) = some b ∧ b.owner = o
+  /-- C15: stored price terms are the parse of the published text -/
+  priced : ∀ k b, Map.get bindings k = some b →
+      ∃ p, Map.get pricing k = some p ∧ parsePricing b.text = .ok p ∧ validPricing p = true
+  pricingOnly : ∀ k, (Map.get pricing k).isSome → (Map.get bindings k).isSome
+  defined : ∀ svc p, (Map.get bindings (svc, p)).isSome → (Map.get defs svc).isSome
+  ownerHas : ∀ p o, Map.get owner p = some o → ∃ svc, (Map.get bindings (svc, p)).isSome
+  /-- C14: an available binding holds the minimum deposit for its price -/
+  minDep : ∀ k b, Map.get bindings k = some b → b.avail = true →
+      ∃ p md, Map.get pricing k = some p ∧ minDeposit params p = some md ∧ md ≤ b.deposit
 
-/-- C11 (first sentence), C10 (single flight): the two queues, their per-context pointers,
-    and the contexts -/
-structure InvQueues (s : State) : Prop where
-  newMirror : ∀ h c, (h, c) ∈ s.newQ ↔ Map.get s.newH c = some h
-  expMirror : ∀ h c, (h, c) ∈ s.expQ ↔ Map.get s.expH c = some h
-  single    : ∀ c, Map.get s.newH c = none ∨ Map.get s.expH c = none
-  newFuture : ∀ c h, Map.get s.newH c = some h → s.height ≤ h ∧ (Map.get s.ctxs c).isSome
-  expFuture : ∀ c h, Map.get s.expH c = some h → s.height ≤ h ∧ (Map.get s.ctxs c).isSome
-  runningQ  : ∀ c x, Map.get s.ctxs c = some x → x.state = .running →
-                (Map.get s.newH c).isSome ∨ (Map.get s.expH c).isSome
-  used      : ∀ c, (Map.get s.ctxs c).isSome → c ∈ s.usedIds
+abbrev InvB (s : State) : Prop :=
+  BInv s.cfg s.params (balOf s.bank.bal s.cfg.deposit) s.defs s.bindings s.ownerBind s.owner s.ownerProv s.pricing
 
-/-- C11 (second sentence), C16: request records, responses and the two pending-request
-    indexes belong to the batch in flight of an existing context -/
-structure InvReqs (s : State) : Prop where
-  reqCtx : ∀ r q, Map.get s.reqs r = some q →
-      ∃ x, Map.get s.ctxs r.ctx = some x ∧ r.batch = x.batch ∧ Map.get s.expH r.ctx = some q.expH
-  activeReq : ∀ r, r ∈ s.activeI → (Map.get s.reqs r).isSome
-  activeMirror : ∀ svc p e r, (svc, p, e, r) ∈ s.activeB ↔
-      (r ∈ s.activeI ∧ ∃ q x, Map.get s.reqs r = some q ∧ Map.get s.ctxs r.ctx = some x ∧
+/-- the invocation world (C09 well-formedness, C10 single flight, C11, C16): contexts, the two
+    queues with their pointers, request records, responses, pending-request markers -/
+structure XInv (cfg : Config) (height : Int) (ctxs : Map CtxId Ctx) (expQ newQ : FSet (Int × CtxId))
+    (expH newH : Map CtxId Int) (usedIds : List CtxId) (reqs : Map ReqId Req)
+    (activeB : FSet (SvcName × Addr × Int × ReqId)) (activeI : FSet ReqId) (resps : Map ReqId Resp) : Prop where
+  ctxWF : ∀ c x, Map.get ctxs c = some x → 1 ≤ x.timeout ∧ (x.rep = true → x.timeout ≤ (x.freq : Int))
+  ctxCons : ∀ c x, Map.get ctxs c = some x → ¬ isModAcct cfg x.cons
+  newMirror : ∀ h c, (h, c) ∈ newQ ↔ Map.get newH c = some h
+  expMirror : ∀ h c, (h, c) ∈ expQ ↔ Map.get expH c = some h
+  single    : ∀ c, Map.get newH c = none ∨ Map.get expH c = none
+  newFuture : ∀ c h, Map.get newH c = some h → height ≤ h ∧ (Map.get ctxs c).isSome
+  expFuture : ∀ c h, Map.get expH c = some h → height ≤ h ∧ (Map.get ctxs c).isSome
+  runningQ  : ∀ c x, Map.get ctxs c = some x → x.state = .running →
+                (Map.get newH c).isSome ∨ (Map.get expH c).isSome
+  used      : ∀ c, (Map.get ctxs c).isSome → c ∈ usedIds
+  reqCtx : ∀ r q, Map.get reqs r = some q →
+      ∃ x, Map.get ctxs r.ctx = some x ∧ r.batch = x.batch ∧ Map.get expH r.ctx = some q.expH
+  activeReq : ∀ r, r ∈ activeI → (Map.get reqs r).isSome
+  activeMirror : ∀ svc p e r, (svc, p, e, r) ∈ activeB ↔
+      (r ∈ activeI ∧ ∃ q x, Map.get reqs r = some q ∧ Map.get ctxs r.ctx = some x ∧
         svc = x.svc ∧ p = q.prov ∧ e = q.expH)
-  respReq : ∀ r, (Map.get s.resps r).isSome → (Map.get s.reqs r).isSome ∧ r ∉ s.activeI
-  activeNodup : s.activeI.Nodup
-  reqBound : ∀ r q, Map.get s.reqs r = some q → (∃ x, Map.get s.ctxs r.ctx = some x ∧
-      (Map.get s.bindings (x.svc, q.prov)).isSome)
+  respReq : ∀ r, (Map.get resps r).isSome → (Map.get reqs r).isSome ∧ r ∉ activeI
+  activeNodup : activeI.Nodup
 
-/-- C01: the escrow account holds exactly the pending request fees plus the unwithdrawn earnings -/
-def InvEscrow (s : State) : Prop := s.bal s.cfg.escrow = activeFees s + earnedSum s
+abbrev InvX (s : State) : Prop :=
+  XInv s.cfg s.height s.ctxs s.expQ s.newQ s.expH s.newH s.usedIds s.reqs s.activeB s.activeI s.resps
 
-/-- keys of the summed maps are duplicate-free -/
-structure InvKeys (s : State) : Prop where
-  earned : Map.NodupKeys s.earned
-  ownerEarned : Map.NodupKeys s.ownerEarned
-  bindings : Map.NodupKeys s.bindings
+/-- sum of the fees of the pending requests -/
+def feeSum (reqs : Map ReqId Req) (active : List ReqId) : Nat :=
+  (active.map (fun r => match Map.get reqs r with | some q => q.fee | none => 0)).sum
 
-/-- C15: every binding's owner is the provider's owner; indexes are projections of the bindings -/
-structure InvIndexes (s : State) : Prop where
-  ownerOf : ∀ svc p b, Map.get s.bindings (svc, p) = some b → Map.get s.owner p = some b.owner
-  ownerProv : ∀ o p, (o, p) ∈ s.ownerProv ↔ Map.get s.owner p = some o
-  ownerBind : ∀ o svc p, (o, svc, p) ∈ s.ownerBind ↔ ∃ b, Map.get s.bindings (svc, p) = some b ∧ b.owner = o
-  pricing : ∀ k b, Map.get s.bindings k = some b →
-      ∃ p, Map.get s.pricing k = some p ∧ parsePricing b.text = .ok p ∧ validPricing p = true
-  pricingOnly : ∀ k, (Map.get s.pricing k).isSome → (Map.get s.bindings k).isSome
-  defined : ∀ svc p, (Map.get s.bindings (svc, p)).isSome → (Map.get s.defs svc).isSome
-  ownerHas : ∀ p o, Map.get s.owner p = some o → ∃ svc, (Map.get s.bindings (svc, p)).isSome
+/-- earnings of the providers owned by `o` -/
+def ownedSum (owner : Map Addr Addr) (earned : Map Addr Nat) (o : Addr) : Nat :=
+  Map.total (fun n : Nat => n) (earned.filter (fun p => Map.get owner p.1 = some o))
 
-/-- C14: an available binding holds the minimum deposit for its price -/
-def InvMinDep (s : State) : Prop :=
-  ∀ k b, Map.get s.bindings k = some b → b.avail = true →
-    ∃ md, minDeposit s.params (storedPricing s k.1 k.2) = some md ∧ md ≤ b.deposit
+/-- the money world (C01, C13): escrow backing and the double bookkeeping of earnings -/
+structure MInv (escBal : Nat) (reqs : Map ReqId Req) (activeI : FSet ReqId)
+    (earned ownerEarned : Map Addr Nat) (owner : Map Addr Addr) : Prop where
+  /-- C01 -/
+  escrow : escBal = feeSum reqs activeI + Map.total (fun n : Nat => n) earned
+  earnedK : Map.NodupKeys earned
+  ownerEarnedK : Map.NodupKeys ownerEarned
+  /-- C13 -/
+  ownerSum : ∀ o, balOf ownerEarned o = ownedSum owner earned o
+  earnedOwned : ∀ p, (Map.get earned p).isSome → (Map.get owner p).isSome
 
-/-- C13: an owner's recorded earnings are the sum of the earnings of the providers it owns -/
-def ownedEarned (s : State) (o : Addr) : Nat :=
-  Map.total (fun n : Nat => n) (s.earned.filter (fun p => Map.get s.owner p.1 = some o))
+abbrev InvM (s : State) : Prop :=
+  MInv (balOf s.bank.bal s.cfg.escrow) s.reqs s.activeI s.earned s.ownerEarned s.owner
 
-def InvOwnerEarned (s : State) : Prop :=
-  (∀ o, balOf s.ownerEarned o = ownedEarned s o) ∧
-  (∀ p, (Map.get s.earned p).isSome → (Map.get s.owner p).isSome)
+/-- every request record names a bound provider (so a slash always finds its binding) -/
+def InvBound (s : State) : Prop :=
+  ∀ r q, Map.get s.reqs r = some q → ∃ x, Map.get s.ctxs r.ctx = some x ∧ (Map.get s.bindings (x.svc, q.prov)).isSome
+
+/-- all of them -/
+structure Inv (s : State) : Prop where
+  static : InvStatic s
+  b : InvB s
+  x : InvX s
+  m : InvM s
+
+/-- the quantities of the property statements, in terms of a state -/
+def ownedEarned (s : State) (o : Addr) : Nat := ownedSum s.owner s.earned o
+
+theorem activeFees_eq (s : State) : activeFees s = feeSum s.reqs s.activeI := by
+  unfold activeFees feeSum feeOf; rfl
 
 end SM
